@@ -62,6 +62,13 @@ func ParseOp(l string) (Op, error) {
 
 // Apply performs op on g under recover.
 func Apply(g pf.Game, o Op) (err error, panicked string) {
+	if bg, ok := g.(*besideGame); ok {
+		err, panicked = Apply(bg.Game, o)
+		if err == nil && panicked == "" {
+			bg.sc.interfere()
+		}
+		return
+	}
 	defer func() {
 		if r := recover(); r != nil {
 			panicked = fmt.Sprintf("%v\n%s", r, debug.Stack())
